@@ -430,6 +430,18 @@ func (c *Ctx) recordFieldStores(p *Parser, name string) []*ssa.Store {
 // loads of a config MinMatchLen, or a value m with m ≥ 3 or m ≥ inputLen on
 // each defining edge (so m ≥ min(3, inputLen)).
 func (c *Ctx) minLenCandidates(fi *FuncInfo) []ssa.Value {
+	if c.minLenMemo == nil {
+		c.minLenMemo = map[*FuncInfo][]ssa.Value{}
+	}
+	if r, ok := c.minLenMemo[fi]; ok {
+		return r
+	}
+	r := c.minLenCandidates0(fi)
+	c.minLenMemo[fi] = r
+	return r
+}
+
+func (c *Ctx) minLenCandidates0(fi *FuncInfo) []ssa.Value {
 	var out []ssa.Value
 	ils := fi.atomsWithSuffix(".inputLen")
 	for _, b := range fi.fn.Blocks {
@@ -447,7 +459,25 @@ func (c *Ctx) minLenCandidates(fi *FuncInfo) []ssa.Value {
 					}
 				}
 			case *ssa.Phi:
-				if !isIntType(x.Type()) {
+				if !isIntType(x.Type()) || len(x.Edges) != 2 {
+					continue
+				}
+				// cheap prefilter: each incoming value is a small constant or an input-length load
+				pre := true
+				for _, e := range x.Edges {
+					le := fi.lin(e)
+					if le.isConst() {
+						continue
+					}
+					if _, ok := atomEndsWith(le, ".inputLen"); ok {
+						continue
+					}
+					if _, ok := atomEndsWith(le, ".InputLen"); ok {
+						continue
+					}
+					pre = false
+				}
+				if !pre {
 					continue
 				}
 				good := true
